@@ -86,6 +86,7 @@ class CoreMixin:
         self.obligs = []
         self.facts = []          # valid facts (instantiated axioms about math functions etc.)
         self.fact_keys = set()
+        self.axiom_facts = []
         self.heap0 = {}
         self.allocated = []      # refs of objects allocated during execution
         self.uses_alloc = False
@@ -258,6 +259,8 @@ class CoreMixin:
             return
         self.fact_keys.add(key)
         self.facts.append(fact)
+        if isinstance(key, tuple) and key and key[0] == 'axiom':
+            self.axiom_facts.append(fact)
 
     def hyps(self, st):
         return list(st.pc) + list(st.guards)
